@@ -172,9 +172,10 @@ def bind (a : Alias) (n : String) (srcs capSrcs : List String) : Alias :=
 def absorb (a : Alias) (n : String) (srcs capSrcs : List String) : Alias :=
   { a with el := a.el.absorb n srcs, cap := a.cap.absorb n capSrcs }
 
-def remove (a : Alias) (n : String) : Alias :=
-  if a.additive then a else
-  { a with el := { a.el with grp := a.el.grp.filter (·.1 != n) }, cap := { a.cap with grp := a.cap.grp.filter (·.1 != n) } }
+/-- `del(n)` seen in the text.  The walk is syntactic: the `del` may sit under a condition that is false or in a loop that
+does not run (`if x == 1 { del(K) }`), so within the input the name keeps its membership; a name that was really deleted
+is dropped at the start of the next input, where only the globals the model reports as live survive. -/
+def remove (a : Alias) (_n : String) : Alias := a
 
 end Alias
 
